@@ -19,7 +19,7 @@ from harness import core, values as V, diffcommon as D
 
 THEOREM_FILE = "Properties/C04.v"
 COQCHK = ["Properties.C04"]
-RULE = ("pairs: (a) lists over a 4-atom alphabet, length <= 12, related by insert/delete/replace/move/duplicate/rotate edits (plus an adjacent swap behind an insertion: the K17 shape in a quarter of them), planted under 0-2 "
+RULE = ("pairs: (a) lists over a 4-atom alphabet, length <= 12, related by insert/delete/replace/move/duplicate/rotate edits (plus an adjacent swap behind an insertion: the K17 shape in a quarter of them; plus replaced items on both sides of an insertion/deletion in one list of distinct atoms: same-index and shifted replace blocks in one run), planted under 0-2 "
         "common container levels; (a') dicts with 4-8 common keys inserted in different orders, and t2 with all dicts rebuilt in shuffled insertion order (20%); (b) random nested values and edit scripts (1-3 edits); (c) pairs with one to three set / frozenset pairs holding ==-aliased numbers (1 / True / 1.0 ...) at list positions, dict values or nested (5%); "
         "one container object at two positions of t1 in 15% + a dedicated 4% stream; x verbose {1,2} x threshold {0,0.33,0.9}, default "
         "alignment (zip_ordered_iterables=False). Non-trivial = the diff is non-empty; distinct by (t1, t2).")
@@ -423,6 +423,28 @@ def gen_pairs(ctx, n):
                                 kinds = kinds + ["retype_alias"]
                                 break
                 ctx.count("gen:atom_list_alias")
+            elif rng.random() < 0.15:
+                # replaced items on BOTH sides of an insertion / deletion in one list of mostly distinct atoms: the difflib
+                # pass wins with a replace block whose chunks start at the same index (in front) and one or two whose chunks
+                # start at different indexes (behind); every entry behind must carry a new_path that resolves
+                # (C04_text_new_path_given; seeded change C04-9: an answer cached for the first sibling was reused)
+                n = rng.randint(5, 10)
+                pool = list(range(1, 30)) + ["a", "b", "c", "d", "e", "f", "g", 0.5, 1.5, None]
+                a = rng.sample(pool, n)
+                b = list(a)
+                p2 = rng.randrange(1, n - 1)                       # where the insertion / deletion happens
+                fronts = rng.sample(range(0, p2), rng.choice([1, 1, 2]) if p2 >= 2 else 1)
+                backs = rng.sample(range(p2 + 1, n), rng.choice([1, 1, 2]) if n - p2 - 1 >= 2 else 1)
+                for j in fronts + backs:
+                    b[j] = rng.choice([100 + j, "n%d" % j, str(a[j]), -1.5])    # new value, sometimes of another type
+                if rng.random() < 0.6:
+                    b[p2:p2] = [rng.choice([0, "ins", 77])] * rng.choice([1, 1, 2])
+                else:
+                    del b[p2]
+                if rng.random() < 0.3:
+                    a, b = tuple(a), tuple(b)
+                kinds = ["replace_both_sides_of_indel"]
+                ctx.count("gen:replace_both_sides_of_indel")
             elif rng.random() < 0.17:
                 # an adjacent swap behind an insertion: difflib removes an item at index i and adds an equal one at
                 # index i in about a quarter of these (the shape of C04_K17_exact), shifted replace blocks in others
